@@ -377,7 +377,10 @@ class Script:
             if sum(1 for _, pt in m.params if pt[0] == "cb") > 1:
                 direct = []          # the order in which a C++ compiler destroys several by-value arguments is its own business
             if direct and r.random() < (0.6 if owning else 0.3 if len(direct) == 1 else 0.5):
-                bad = r.choice(direct)
+                # (a parameter whose Rust name the C++ formatter has to escape is validated under its escaped name: seed C02-j)
+                import spec as spec_
+                kw = [pn for pn in direct if pn in spec_.KEYWORD_PARAMS]
+                bad = r.choice(kw) if kw else r.choice(direct)
                 args[bad] = {"data": r.choice([b"\xff", b"ok\xc3", b"\xed\xa0\x80", b"a\x80b", b"\xf4\x90\x80\x80", b"\xc0\xaf"]), "null": False}
                 self.counts[m.abi_name] = n          # Rust is never reached: the per-method call counter does not advance
                 exp = [("C", "CBDROP %d" % args[pn]["cb"]) for pn, pt in m.params if pt[0] == "cb" and args[pn]["destructor"]]
